@@ -417,10 +417,6 @@ def check_entrypoints(ctx, tc, c, o):
         ctx.mismatch('C12:%s:decode:root:raises-%s' % (site, exc_class(e)), 'parameter %s, entrypoint %s, value %s: decode raised %r' % (michelson(T), root, vj, e), c.json(site=site))
         ok = False
     leaf_t, leaf_v = or_leaf(T, v) if T[0] == 'or' else (None, None)
-    if T[0] == 'or' and not leaf_t[1]:
-        # encode ends in to_parameters on a value whose variant has no field annotation: that is C13's domain (and defect), not asserted here
-        ctx.skip('ContractEntrypoint.encode of a value in a variant without field annotation (to_parameters: C13)')
-        return ok
 
     def denotes(params):
         return pval(T, tc.param.from_parameters(params).to_micheline_value())
